@@ -390,6 +390,17 @@ func runC01(k *kernel.K) {
 		if len(fin) > len(c.Script) {
 			k.Fail("C01.resp_count_order", nil, "%s: %d responses for %d requests", c.Name, len(fin), len(c.Script))
 		}
+		// What a response says about the connection is part of it: "Connection: close" when neither
+		// side asked to close tells a client not to send its next request here (and, when the proxy
+		// then does not close either, to wait for a close that never comes).
+		for j := 0; j < len(fin) && j < len(c.Script); j++ {
+			ex := exs[c.Script[j].Spec.ID]
+			if fin[j].WantsClose() && !reqAsksClose(ex.req) && !(ex.sentResp != nil && respAsksClose(ex.sentResp, ex.req.Method)) {
+				closed := j == len(fin)-1 && (c.SawEOF || c.SawRST)
+				k.Fail("C01.keepalive", map[string]string{"announced": "close_nobody_asked_for", "method": ex.req.Method}, "%s: the response to request #%d (%s, origin response %d framed %q) announces Connection: close although neither the client nor the origin asked to close; the proxy closed the connection afterwards: %v", c.Name, ex.id, ex.req.Method, ex.sentResp.Status, ex.sentResp.Framing, closed)
+				break
+			}
+		}
 		// Close behaviour.
 		lastIt := c.Script[len(c.Script)-1]
 		lastEx := exs[lastIt.Spec.ID]
